@@ -1,8 +1,73 @@
 import AFV.Driver.Proto
+import AFV.Model.Valid
 namespace AFV.Driver.C03
-open Lean AFV.Proto
+open Lean AFV.Proto AFV.Valid
 
-/-- Handler for property C03 requests (stub: not implemented yet). -/
-def handle (_req : Json) : Json := err "unimplemented"
+private def str? (j : Json) (k : String) : Option String := (field? j k).bind getStr?
+private def nat? (j : Json) (k : String) : Option Nat := (field? j k).bind getNat?
+private def strs? (j : Json) (k : String) : Option (List String) := (field? j k).bind strList?
+
+def node? (j : Json) : Option Node := do
+  match ← str? j "k" with
+  | "storage" => pure (Node.storage (← str? j "comp") (← strs? j "tensors"))
+  | "toll" => pure (Node.toll (← str? j "comp") (← strs? j "tensors"))
+  | "loop" => pure (Node.loop (← str? j "rv") (← nat? j "tile"))
+  | "spatial" => pure (Node.spatial (← str? j "rv") (← nat? j "tile") (← str? j "comp") (← str? j "dim"))
+  | "compute" => pure (Node.compute (← str? j "comp") (← str? j "einsum"))
+  | _ => none
+
+def path? (j : Json) : Option Path := do
+  let ns ← (field? j "nodes").bind getArr?
+  pure ⟨← str? j "einsum", ← ns.toList.mapM node?⟩
+
+def rank? (j : Json) : Option (String × Nat) := do
+  let a ← getArr? j
+  if a.size != 2 then none else pure (← getStr? a[0]!, ← getNat? a[1]!)
+
+def einsum? (j : Json) : Option EinsumSpec := do
+  let rs ← (field? j "ranks").bind getArr?
+  pure ⟨← str? j "name", ← rs.toList.mapM rank?, ← strs? j "tensors"⟩
+
+def keep? (j : Json) : Option Keep := do pure ⟨← str? j "einsum", ← str? j "comp", ← strs? j "tensors"⟩
+def fanout? (j : Json) : Option Fanout := do pure ⟨← str? j "comp", ← str? j "dim", ← nat? j "fanout"⟩
+
+def op? : String → Option Op
+  | "==" => some .eq | "<=" => some .le | "<" => some .lt | ">=" => some .ge | ">" => some .gt
+  | "product==" => some .peq | "product<=" => some .ple | "product<" => some .plt
+  | "product>=" => some .pge | "product>" => some .pgt
+  | _ => none
+
+def lb? (j : Json) : Option LoopBound := do
+  pure ⟨← str? j "comp", ← str? j "dim", ← strs? j "rvs", ← op? (← str? j "op"), ← nat? j "value"⟩
+
+private def listOf? {α} (j : Json) (k : String) (f : Json → Option α) : Option (List α) := do
+  let a ← (field? j k).bind getArr?
+  a.toList.mapM f
+
+/-- {"op":"failures", einsums, paths, keep, fanouts, loop_bounds} → list of failed check names (empty = valid);
+    {"op":"chain","bound":b,"tiles":[…]} → {"ok":bool,"counts":[…]}. -/
+def handle (req : Json) : Json :=
+  match str? req "op" with
+  | some "failures" =>
+    match listOf? req "einsums" einsum?, listOf? req "paths" path?, listOf? req "keep" keep?,
+          listOf? req "fanouts" fanout?, listOf? req "loop_bounds" lb? with
+    | some es, some ps, some ks, some fs, some lbs => ofStrList (failures es ps ks fs lbs)
+    | _, _, _, _, _ => err "malformed"
+  | some "fused" =>
+    match listOf? req "paths" path?, (field? req "shared").bind strList? with
+    | some ps, some shared =>
+      let mf := (field? req "max_fused").bind getNat?
+      let mp := (field? req "max_per_rv").bind getNat?
+      ofBoolList (ps.map (fusedLoopsOK shared mf mp))
+    | _, _ => err "malformed"
+  | some "tollNotOutermost" =>
+    match listOf? req "paths" path?, (field? req "shared").bind strList? with
+    | some ps, some shared => ofBoolList (ps.map (tollNotOutermost shared))
+    | _, _ => err "malformed"
+  | some "chain" =>
+    match nat? req "bound", (field? req "tiles").bind natList? with
+    | some b, some ts => Json.mkObj [("ok", Json.bool (chainOK b ts)), ("counts", ofNatList (counts b ts))]
+    | _, _ => err "malformed"
+  | _ => err "bad-op"
 
 end AFV.Driver.C03
